@@ -26,6 +26,9 @@ type RaceReport struct {
 	Field    string    `json:"field"` // struct field containing the address, if it lies in a walked structure
 	Phase    string    `json:"phase"`
 	Origin   *Mismatch `json:"origin,omitempty"` // the program, data and configuration that was running
+	AddrIn    string   `json:"addressIn"`           // the field the raced address itself lies in
+	WriteSite string   `json:"writeSite"`           // file:line of the innermost robfig/soy frame of the writing access
+	depth     int
 }
 
 var reAccess = regexp.MustCompile(`^(?:Previous )?(?i:(read|write)) at 0x([0-9a-f]+) by `)
@@ -70,17 +73,63 @@ func ParseRaceLog(text string) []RaceReport {
 
 const soyPkg = "github.com/robfig/soy/"
 
-// classify fills InSoy and TopSoyFn.
+// SoyFrame returns the index of the innermost robfig/soy frame of a, or -1.
+func (a *RaceAccess) SoyFrame() int {
+	for i, f := range a.Frames {
+		if strings.HasPrefix(f, soyPkg) {
+			return i
+		}
+	}
+	return -1
+}
+
+// classify fills InSoy, TopSoyFn (the function of the writing access where
+// there is one) and WriteSite.
 func (r *RaceReport) classify() {
-	for _, a := range r.Accesses {
-		for _, f := range a.Frames {
-			if strings.HasPrefix(f, soyPkg) {
-				r.InSoy = true
-				if r.TopSoyFn == "" {
-					r.TopSoyFn = strings.TrimPrefix(f, soyPkg)
-				}
-				break
+	for pass := 0; pass < 2; pass++ {
+		for i := range r.Accesses {
+			a := &r.Accesses[i]
+			if pass == 0 && a.Kind != "write" {
+				continue
 			}
+			k := a.SoyFrame()
+			if k < 0 {
+				continue
+			}
+			r.InSoy = true
+			if r.TopSoyFn == "" {
+				r.TopSoyFn = strings.TrimPrefix(a.Frames[k], soyPkg)
+				if k < len(a.Where) {
+					r.WriteSite = a.Where[k]
+				}
+			}
+		}
+	}
+}
+
+// unifyBySite gives the reports whose writing access is the same statement
+// the same field: the outermost one any of them resolved to (an append to a
+// shared slice races on the slice header, on the new backing array and on the
+// fields of the appended elements: one defect, one field).
+func unifyBySite(reports []RaceReport) {
+	type best struct {
+		field string
+		depth int
+	}
+	bySite := map[string]best{}
+	for _, r := range reports {
+		if r.WriteSite == "" || r.AddrIn == "" {
+			continue
+		}
+		if b, ok := bySite[r.WriteSite]; !ok || r.depth < b.depth || (r.depth == b.depth && r.AddrIn < b.field) {
+			bySite[r.WriteSite] = best{r.AddrIn, r.depth}
+		}
+	}
+	for i := range reports {
+		r := &reports[i]
+		r.Field = r.AddrIn
+		if b, ok := bySite[r.WriteSite]; ok && r.WriteSite != "" {
+			r.Field = b.field
 		}
 	}
 }
